@@ -156,7 +156,7 @@ def runSql (c : Case) : CaseOut := Id.run do
       | some e => "fail:" ++ e
   return { obs := c.ops.map (fun p => p.2), spec := spec, tags := ["sql-level-oracle-only"] }
 
-def run (c : Case) : CaseOut := Id.run do
+def runSegment (c : Case) : CaseOut := Id.run do
   let timeout := cfgInt c "timeout" 1000
   let ooo := cfgInt c "ooo" 0
   let late := cfgInt c "late" 0
@@ -251,5 +251,7 @@ def run (c : Case) : CaseOut := Id.run do
     | some e => "fail:" ++ e
   if inOrderB (-1000000000000000000000000000000) mops && ooo ≥ 0 then tags := "in-order-history-vs-reference" :: tags
   return { obs := obs, spec := spec, tags := tags, cls := cls }
+
+def run (c : Case) : CaseOut := Proto.withResets runSegment c
 
 end DrvSess
